@@ -144,6 +144,7 @@ var VerdictDefects = map[string]func(*model.Defects){
 	"allof-same-keyword-first-wins":  func(d *model.Defects) { d.AllOfFirstWins = true },
 	"allof-ref-nested-type-reused":   func(d *model.Defects) { d.AllOfNestedReuse = true },
 	"named-nullable-scalar-no-rules": func(d *model.Defects) { d.NamedNullableNoRule = true },
+	"required-undeclared-ignored":    func(d *model.Defects) { d.UndeclaredRequiredIgnored = true },
 	"untyped-composition-definition": func(d *model.Defects) { d.UntypedCompDef = true },
 	"minsized-uint8-array-is-bytes":  func(d *model.Defects) { d.Uint8ArrayBase64 = true },
 	"named-format-type":              func(d *model.Defects) { d.NamedFormat = true },
